@@ -9,6 +9,7 @@ R/V: TLC behaviours plus sweeps over real requests - every listed corruption
    blind; wrong client; malformed client keys), alone and after accepted state
    exists - recorded with a recording cache and validated by Trace_Attester."""
 import vlib
+from checks import verdicts_common as vc
 from checks import attester_common as ac
 
 
@@ -16,6 +17,7 @@ def run(ctx):
     if ctx.thorough:
         ctx.prove("AttesterProofs")   # unbounded (TLAPS) versions of the model-level invariants TLC checks below
     n, cases, kinds, steps, nbeh = ac.run(ctx, "Trace_Attester_C06.cfg", ["tlc", "sweep"], ctx.pick(3, 3))
+    vn, vcases, vdepth = vc.run(ctx, ['attester'])   # Verdicts.tla: every history of presentations on one long-lived object
     rej = sum(1 for c in cases for s in c["steps"] if s.get("k") == "V" and s.get("q") != "good")
     return ctx.finish({
         "traces_validated_against_impl": len(cases),
@@ -27,6 +29,7 @@ def run(ctx):
         "rejecting_requests": rej,
         "histories_by_kind": kinds,
         "tlc_behaviours": nbeh,
+        **vc.coverage(vn, vcases, vdepth),
         "samples": [ac.short(c) for c in vlib.sample([c for c in cases if c["kind"] == "sweep"], 3)],
         "exhaustive": ctx.thorough,
         "exhaustive_part": ("every bit" if ctx.thorough else "one seeded bit per byte") + " of each request field; all abstract request classes in TLC behaviours",
@@ -37,4 +40,6 @@ def run(ctx):
 
 
 def replay(ctx, path):
+    if vlib.json.load(open(path)).get("family") == "verdicts":
+        return vc.replay(ctx, path)
     return ctx.replay_case(path, "attester", "Trace_Attester", cfg="Trace_Attester_C06.cfg")
